@@ -420,6 +420,28 @@ def truncation_guard(F, R, defs):
             w = range_checker_widths(g, F)
             if w.get(2) == 65535 and w.get(1) == 255:
                 good.append(p)
+    # 1b. the checker looks at *every* operand: the operands are walked in full, each with its width, and the verdict is the
+    # conjunction (`.iter().zip(widths).all(..)`, or a loop that answers false at the first operand that does not fit)
+    for p in good:
+        g = F.fn(p)
+        cb = H.inline_helpers(F, H.body_of(g), max_size=200, skip=lambda c_: (F.fns.get(c_) or {}).get("file") != g["file"])
+        pids = [pr.get("id") for pr in g["hir"]["params"] if pr.get("k") == "bind"]
+        chains = []
+        for c in H.walk(cb):
+            if c.get("k") != "mcall":
+                continue
+            names, cur = [], c
+            while isinstance(cur, dict) and cur.get("k") == "mcall":
+                names.append(cur["m"])
+                cur = H.strip(cur["recv"])
+            if H.is_local(cur) and H.local_id(cur) in pids and "zip" in names:
+                chains.append(list(reversed(names)))
+        chains = [ch for ch in chains if not any(set(ch) < set(o) for o in chains)]
+        PARTIAL = {"take", "skip", "filter", "step_by", "any", "find", "position", "last", "nth", "take_while", "skip_while", "filter_map", "max", "min"}
+        loops = [m for m in H.walk(cb) if m.get("k") == "match" and m.get("src", "").startswith("ForLoop") and "zip" in H.render(m["scrut"])]
+        ok = bool(chains) and all(not (set(ch) & PARTIAL) for ch in chains) and (any("all" in ch for ch in chains) or bool(loops))
+        R.ob("operand-range-checker", "%s tests every operand against its own width (conjunction over the whole list)" % H.last(p), ok,
+             "operand walks: %s" % [".".join(ch) for ch in chains], F.loc(g))
     # 2. recorders: functions that call a checker and store a CompileError into a field of self on failure
     recorders = {}
     for p, g in F.fns.items():
@@ -431,6 +453,56 @@ def truncation_guard(F, R, defs):
         for (fld, base, rhs, node) in H.assigned_fields(b):
             if base == "self" and "CompileError::new" in H.render(rhs):
                 recorders[p] = fld
+    # ... and the store happens exactly when the test fails (at most also conditioned on no error being on record yet)
+    for p in sorted(recorders):
+        g = F.fn(p)
+        b = H.body_of(g)
+        okc, detc = False, "the store is not under a test of the range check"
+        # the condition under which the store runs: the `if` around it, or the negation of the early returns before it
+        # (`if self.err.is_some() || fits(..) { return; } self.err = Some(..)`)
+        conds = []
+        for x in H.walk(b):
+            if x.get("k") == "if":
+                in_then = any(fld == recorders[p] and base == "self" for (fld, base, rhs, node) in H.assigned_fields(x["t"]))
+                in_else = x.get("e") is not None and any(fld == recorders[p] and base == "self" for (fld, base, rhs, node) in H.assigned_fields(x["e"]))
+                if in_then or in_else:
+                    conds.append((H.bool_expr(x["c"]), in_then))
+            if x.get("k") == "block":
+                sts = x.get("stmts", [])
+                for i_, st in enumerate(sts):
+                    e_ = st.get("e") if st.get("k") in ("semi", "expr") else None
+                    if e_ is not None and e_.get("k") == "assign" and any(fld == recorders[p] and base == "self" for (fld, base, rhs, node) in H.assigned_fields({"k": "block", "stmts": [st], "expr": None})):
+                        pre = [H.strip(s2.get("e")) for s2 in sts[:i_] if s2.get("k") in ("semi", "expr") and isinstance(s2.get("e"), dict)]
+                        outs = [q for q in pre if q.get("k") == "if" and q.get("e") is None and H.diverges(q["t"])]
+                        if outs:
+                            ee = ("not", H.bool_expr(outs[0]["c"]))
+                            for q in outs[1:]:
+                                ee = ("and", ee, ("not", H.bool_expr(q["c"])))
+                            conds.append((ee, True))
+        for e, in_then in conds[:1]:
+            in_else = not in_then
+            atoms = sorted(H.bool_atoms(e))
+            chk = [a for a in atoms if any(H.last(q) + "(" in a for q in good)]
+            rec = [a for a in atoms if ("." + recorders[p]) in a and ("is_none" in a or "is_some" in a)]
+            if len(chk) != 1 or len(atoms) != len(chk) + len(rec):
+                detc = "the condition of the store is not a function of the range check (and the recorded error) alone: %s" % atoms
+                break
+            okc = True
+            for fits in (True, False):
+                for none_ in (True, False):
+                    env = {chk[0]: fits}
+                    for a in rec:
+                        env[a] = none_ if "is_none" in a else (not none_)
+                    v = H.bool_eval(e, env)
+                    stored = v if in_then else (not v)
+                    want = (not fits) and (none_ or not rec)
+                    if none_ and stored != want or (not none_ and stored and fits):
+                        okc = False
+                        detc = "with the operands %s and %s the error is %s" % ("fitting" if fits else "not fitting", "no error on record" if none_ else "an error on record", "stored" if stored else "not stored")
+            if okc:
+                detc = "stored exactly when %s is false" % chk[0][:50]
+            break
+        R.ob("operand-error-recorded", "%s stores the error exactly when the range test fails" % H.last(p), okc, detc, F.loc(g))
     R.ob("operand-error-recorded", "failed range test stores a CompileError", bool(recorders),
          "recorders: %s" % {H.last(k): v for k, v in recorders.items()})
     guards = set(good) | set(recorders)
